@@ -92,6 +92,12 @@ func main() {
 		if !strings.Contains(err.Error(), "use of closed") {
 			fmt.Fprintln(os.Stderr, "pmharness:", err)
 		}
+		if isChild {
+			// as cmd/zinc-playground/root.go does: the error is printed, Run returns and the
+			// process ends with status 0 (e.g. a worker whose connection carried no HTTP request)
+			fmt.Fprintf(logf, "W %d exit0 %d\n", os.Getpid(), time.Now().UnixNano())
+			os.Exit(0)
+		}
 		os.Exit(1)
 	}
 }
